@@ -23,6 +23,9 @@ pub unsafe fn register(regs: LanguageGlobs) -> Result<()> {
 }
 
 fn register_impl(regs: LanguageGlobs) -> Result<Vec<(SgLang, Types)>> {
+  // in key order: the table, and so the language of a path two entries claim, must not depend on the map's iteration order
+  let mut regs: Vec<_> = regs.into_iter().collect();
+  regs.sort();
   let mut lang_globs = vec![];
   for (lang, globs) in regs {
     let lang = SgLang::from_str(&lang).with_context(|| EC::UnrecognizableLanguage(lang))?;
